@@ -8,7 +8,7 @@ CONSTANT TraceFile
 VARIABLE l
 Trace == ndJsonDeserialize(TraceFile)
 
-Install(st) == applied' = st.applied /\ dirty' = st.dirty
+Install(st) == applied' = st.applied /\ cleared' = st.cleared /\ dirty' = st.dirty
 
 PInit == Init /\ l = 1
 PNext == /\ l <= Len(Trace) /\ l' = l + 1
